@@ -36,7 +36,7 @@ class SentenceGen:
         if k == 0:
             return [r.choice(['0', '1', '2', '10', '3.5', '007', '12.50'])]
         if k == 1:
-            return [r.choice(['"s"', "'t'", '""', 'r"\\n"', '"a b"'])]
+            return [r.choice(['"s"', "'t'", '""', 'r"\\n"', '"a b"', '"("', '")"', '"[x"', '"hi :)"', '"# {"', "'}'"])]
         if k == 2:
             return [r.choice(['True', 'False', 'None'])]
         return [r.choice(NAMES)]
